@@ -542,7 +542,30 @@ func Deep() *rapid.Generator[[]byte] {
 					body = append(body, "# h"+strconv.Itoa(j))
 				}
 			case 4:
-				body = append(body, "```go", "code", "```")
+				// a verbatim block of many lines: fenced code with an info string that
+				// has children of its own (a reference, an escape), indented code, or
+				// an HTML block
+				w := rapid.IntRange(1, 150).Draw(t, "lines")
+				switch rapid.IntRange(0, 2).Draw(t, "verbatim") {
+				case 0:
+					body = append(body, "```go &amp; a\\*b x")
+					for j := 0; j < w; j++ {
+						body = append(body, "code "+strconv.Itoa(j))
+					}
+					body = append(body, "```")
+				case 1:
+					body = append(body, "")
+					for j := 0; j < w; j++ {
+						body = append(body, "    code "+strconv.Itoa(j))
+					}
+					body = append(body, "")
+				default:
+					body = append(body, "<div>")
+					for j := 0; j < w; j++ {
+						body = append(body, "<b>"+strconv.Itoa(j)+"</b>")
+					}
+					body = append(body, "</div>", "")
+				}
 			default:
 				body = append(body, "plain *text* here", "")
 			}
